@@ -720,7 +720,7 @@ func (sm *Subscriptions) WhenArgs(
 
 	// try to reuse an existing channel
 	for _, binding := range sm.whenArgs[handler] {
-		if compareArgs(binding.args, args) {
+		if compareArgs(binding.args, args) && binding.ctx == ctx {
 			return binding.ch
 		}
 	}
